@@ -31,7 +31,7 @@ ASSUMPTIONS = [
     "the class -> needing-request map is the harness's: offdiag_h0, degenerate_elimination, not_orthonormal, asymmetric_mask, exclusive_options at definition; shared_energy at U[a,b,n] for the first order n at which blocks a,b are coupled; nonhermitian_symbolic at H_tilde[0,0,n_bad]",
     "H_0 that is non-diagonal only inside a block merely warns (documented) and is not in the listed classes",
 ]
-BUDGET = {"quick": dict(cases=2400, seconds=75), "thorough": dict(cases=30000, seconds=540)}
+BUDGET = {"quick": dict(cases=2400, seconds=300), "thorough": dict(cases=30000, seconds=540)}
 CASE_TIMEOUT = 120
 MONITORS = {"product": False}
 MONITOR_VERDICTS = ()  # FP/non-finite monitor events are judged here, on the valid twins only
